@@ -15,101 +15,6 @@ variable {Id Hsh : Type} [DecidableEq Id] [DecidableEq Hsh]
 variable {P : Params Id Hsh} {offered : Bytes → Prop} {now : Int} {id : Id} {s : Src} {used used' : Bool}
   {fs fs' : FS Id Hsh} {proc n : Nat} {fault : Fault} {r : Res} {nx : Next Hsh}
 
-/-- the names whose content a system call may change are among `q1`, `q2`. -/
-def Touches (fs : FS Id Hsh) (q1 q2 : Name Id Hsh) : Sys Id Hsh → Prop
-  | .open q _ _ _ => q = q1 ∨ q = q2
-  | .unlink q => q = q1 ∨ q = q2
-  | .write fd _ => ∀ o, fs.fds fd = some o → fs.names q1 = some o.ino ∨ fs.names q2 = some o.ino
-  | .ftruncate fd _ => ∀ o, fs.fds fd = some o → fs.names q1 = some o.ino ∨ fs.names q2 = some o.ino
-  | _ => True
-
-theorem content_same (h : SameFiles fs fs') (p : Name Id Hsh) : fs'.content p = fs.content p := by
-  simp [FS.content, FS.file?, h.1, h.2.1]
-
-theorem content_setInode {q p : Name Id Hsh} {i : Nat} (hst : Struct fs) (hq : fs.names q = some i) (hp : p ≠ q)
-    (nd' : Inode Id Hsh) : (fs.setInode i nd').content p = fs.content p := by
-  simp only [FS.content, FS.file?, FS.setInode]
-  cases hn : fs.names p with
-  | none => rfl
-  | some j =>
-    have : j ≠ i := by
-      intro e; subst e
-      obtain ⟨a, h1, h2⟩ := hst.named _ _ hn
-      obtain ⟨b, h3, h4⟩ := hst.named _ _ hq
-      rw [h1] at h3; cases h3
-      exact hp (h2.symm.trans h4)
-    simp [this]
-
-theorem execOk_frame (hst : Struct fs) {sys : Sys Id Hsh} {q1 q2 : Name Id Hsh} (he : execOk fs proc sys = some (fs', r))
-    (ht : Touches fs q1 q2 sys) {p : Name Id Hsh} (h1 : p ≠ q1) (h2 : p ≠ q2) : fs'.content p = fs.content p := by
-  cases sys <;> simp only [Touches] at ht
-  case stat q => exact content_same (exec_stat_same (fault := .none) (by simpa [exec] using he)) p
-  case read fd k => exact content_same (exec_read_same (fault := .none) (by simpa [exec] using he)) p
-  case close fd => exact content_same (exec_close_same (fault := .none) (by simpa [exec] using he)) p
-  case chtimes q => exact content_same (exec_chtimes_same (fault := .none) (by simpa [exec] using he)) p
-  case «open» q m create trunc =>
-    have hpq : p ≠ q := by rcases ht with rfl | rfl <;> assumption
-    simp only [execOk] at he
-    cases hnm : fs.names q with
-    | some i =>
-      cases hnd : fs.inodes i with
-      | none => simp [hnm, hnd] at he
-      | some nd =>
-        simp [hnm, hnd, FS.newFd] at he
-        obtain ⟨rfl, _⟩ := he
-        cases trunc with
-        | false => simp [FS.content, FS.file?]
-        | true =>
-          have := content_setInode hst hnm hpq { nd with data := [] }
-          simpa [FS.content, FS.file?] using this
-    | none =>
-      cases create with
-      | false => simp [hnm] at he; obtain ⟨rfl, _⟩ := he; rfl
-      | true =>
-        simp [hnm, FS.newFd] at he
-        obtain ⟨rfl, _⟩ := he
-        simp only [FS.content, FS.file?, hpq, if_false]
-        cases hn : fs.names p with
-        | none => rfl
-        | some j =>
-          have : j ≠ fs.nextIno := by
-            intro e; subst e
-            obtain ⟨a, g1, _⟩ := hst.named _ _ hn
-            have := hst.bound _ _ g1; omega
-          simp [this]
-  case write fd bs =>
-    obtain ⟨o, nd, g1, g2, rfl, _⟩ := write_spec he
-    rcases ht o g1 with h | h
-    · simpa [FS.content, FS.file?, FS.setFd] using content_setInode hst h h1 { nd with data := writeAt nd.data o.off bs }
-    · simpa [FS.content, FS.file?, FS.setFd] using content_setInode hst h h2 { nd with data := writeAt nd.data o.off bs }
-  case ftruncate fd k =>
-    obtain ⟨o, nd, g1, g2, rfl, _⟩ := ftruncate_spec he
-    rcases ht o g1 with h | h
-    · exact content_setInode hst h h1 _
-    · exact content_setInode hst h h2 _
-  case unlink q =>
-    have hpq : p ≠ q := by rcases ht with rfl | rfl <;> assumption
-    simp only [execOk] at he
-    split at he <;> (simp at he; obtain ⟨rfl, _⟩ := he)
-    · rfl
-    · simp [FS.content, FS.file?, hpq]
-
-theorem exec_frame (hst : Struct fs) {sys : Sys Id Hsh} {q1 q2 : Name Id Hsh} (he : exec fs proc sys fault = some (fs', r))
-    (ht : Touches fs q1 q2 sys) {p : Name Id Hsh} (h1 : p ≠ q1) (h2 : p ≠ q2) : fs'.content p = fs.content p := by
-  cases fault <;> simp only [exec] at he
-  case none => exact execOk_frame hst he ht h1 h2
-  case crashAfter => exact execOk_frame hst he ht h1 h2
-  case fail => simp at he; obtain ⟨rfl, _⟩ := he; rfl
-  case crashBefore => simp at he
-  case short k =>
-    cases sys <;> simp at he
-    case write fd bs =>
-      split at he
-      · next w1 r1 hw =>
-        simp at he; obtain ⟨rfl, _⟩ := he
-        exact execOk_frame hst hw (by simpa [Touches] using ht) h1 h2
-      · simp at he
-
 /-- what the system call at a program point of `Put(id, s)` may touch. -/
 theorem put_touches {pc : PC Hsh} (hL : LocalPut P offered now id s used fs pc) :
     Touches fs (.data (putOut P s)) (.index id) (sysOf P now n (.put id s) pc) := by
